@@ -648,10 +648,11 @@ class Partition:
         # Chec inputs and define rectangles
         rectangles = []
         for bbox in bboxes:
-            fmin = bbox.get("fmin", float(ds.freq.min())) or float(ds.freq.min())
-            fmax = bbox.get("fmax", float(ds.freq.max())) or float(ds.freq.max())
-            dmin = bbox.get("dmin", float(ds.dir.min())) or float(ds.dir.min())
-            dmax = bbox.get("dmax", float(ds.dir.max())) or float(ds.dir.max())
+            fmin, fmax, dmin, dmax = (bbox.get(k) for k in ("fmin", "fmax", "dmin", "dmax"))
+            fmin = float(ds.freq.min()) if fmin is None else fmin
+            fmax = float(ds.freq.max()) if fmax is None else fmax
+            dmin = float(ds.dir.min()) if dmin is None else dmin
+            dmax = float(ds.dir.max()) if dmax is None else dmax
 
             if fmin >= fmax:
                 raise ValueError(f"fmin {fmin} Hz >= fmax {fmax} Hz")
